@@ -73,6 +73,14 @@ CHECKS = {
          "Machine-checked proof: models_as_declared (parse output lists the declared models, attributes and required models in order, nothing dropped or invented), helpers_agree (the XML and the JSON helper give the same name and the same set whenever a NamespaceUris element exists or the model is the OPC UA one) with helpers_disagree_witness for finding D-C18a, own_and_deps (name is the first model, own URI never among the dependencies, every other listed URI and the OPC UA namespace is), filter_exact / filter_sublist (a file is kept iff one of its model URIs is listed; order kept). Tie: 180 generated documents and 200 (file list, filter) pairs per quick run, both helpers, get_xml_namespaces, the filter and parse_xml_files()['models'] on the real code vs the model, plus the property evaluated directly; headers with comments and ServerUris (fixed defects D-C18b,c) are in the generated stream.",
          "Trusted: Lean kernel, model of the header pre-processing as the two lines that matter, lxml infoset, driver, harness, document builder.",
          "DESIGN.md section 3 C18"),
+ "C19": ("Lean 4 theorems about a small-step model of the side-file protocol (one step per file-system / XML / JSON operation, a fault flag per operation) + differential correspondence and exhaustive fault injection against /repo",
+         "Machine-checked proof: parse_restores (for EVERY set of failing operations a call on a directory without its side file ends with every path holding what it held before, outcome = lone result or the injected failure), run_terminates, parse_result, fault_restores, history_faithful (along every history of edit / remove / parse-with-fault each parse answers for the current content and no side file survives between calls), parseMany_restores, side_ne. Tie: every intercepted call of each scenario's fault-free run is made to raise once (write: before and in the middle); operation trace, outcome and final directory of the real call vs the model; the property is also evaluated directly (listing and hashes before/after, edit and parse again vs the lone result), over histories, multi-file calls and UAGraph.from_path.",
+         "Trusted: Lean kernel, the interception layer (proxies for os / open / lxml.etree / json as seen by the two parser modules), driver, harness. Content functions are parameters of the theorems. Not exhibited: process kill, power loss, byte-level partial writes beyond 'half the content'.",
+         "DESIGN.md section 3 C19"),
+ "C20": ("Lean 4 theorems about n protocol programs over a shared file-system map (with file-object identity) under an arbitrary schedule + real threads driven operation by operation by a deterministic scheduler",
+         "Machine-checked proof: runN_independent (pairwise non-colliding file names: under every schedule each parser goes through the states it goes through alone), concurrent_result (it returns the lone result and its files end as they began), runN_frame, disjoint_of_names, cache_transparent (the shared functools.cache returns the pure function's value under any interleaving of calls); same_file_missing / same_file_half / same_file_orphan are proved witnesses of finding D-C20a and are replayed on the real code. Tie: 120 runs of 2-3 threads on different files and 84 runs of 2 threads on one file per quick run, random schedules (half of them with extra switch points inside the thread-local loops); the executed order is replayed on the model and outcomes, per-thread traces and the directory are compared; every thread's tables are compared with its lone result; forked processes on different files as a sampled stress run.",
+         "Trusted: Lean kernel, interception layer and scheduler, CPython running one thread at a time between switch points, driver, harness. Not exhibited: OS-level atomicity of one open/write/read call, lxml internals, schedules of separate processes.",
+         "DESIGN.md section 3 C20"),
 }
 PENDING_REASON = "check not built yet in this session; planned as a Lean model + correspondence check (DESIGN.md section 3)"
 
